@@ -29,21 +29,51 @@ package capability
 //@ # DefaultVersion: the capability map is allocated by the constructor
 //@ typeinv DefaultVersion { [caps] this.capabilities != nil }
 //@ func NewDefaultVersion returns (v)
-//@   modifies
-//@   ensures [fresh] nonnil(v) && fresh(v)
+//@   ghost-update at box: $box.$vs := spec
+//@   ensures [fresh] nonnil(v) && fresh(v) && v.$vs == spec
 
 //@ # Version: abstract view $has (capability object -> enabled), $vs (the version string)
 //@ ghost field Version.$vs int
+//@ ghost field Version.$has [int]bool
 //@ interface Version.VersionString returns (s)
 //@   modifies
+//@   ensures [spec] s == this.$vs
 //@ interface Version.SetCapability params (c, b)
-//@   modifies this.*, all map map[*capability.Capability]bool
+//@   modifies this.*, this.$has, all map map[*capability.Capability]bool
+//@   ensures [set] this.$has[ref(c)] == b
+//@   ensures [others-kept] forall k int :: k != ref(c) ==> this.$has[k] == old(this.$has[k])
+//@   ensures [spec-kept] this.$vs == old(this.$vs)
 //@ interface Version.Has params (c) returns (r)
 //@   modifies
+//@   ensures [has] r == this.$has[ref(c)]
+//@ typeinv DefaultVersion { [view-has] forall k int :: this.$has[k] == mapbool(this.capabilities, k) }
+//@ typeinv DefaultVersion { [view-spec] this.$vs == this.spec }
+//@ func (*DefaultVersion).SetCapability
+//@   ghost-update at exit: v.$has := store(old(v.$has), ref(cap), b)
 
+//@ # the ranges of capability c, and the property's set-level statement
+//@ pred caprange(c *Capability, r int, v string) { inrange(c.VersionRanges[r].Introduced, c.VersionRanges[r].Removed, v) }
+//@ pred inany(c *Capability, n int, v string) { exists r int :: 0 <= r && r < n && caprange(c, r, v) }
 //@ func (Target).SetCapabilities returns (err)
 //@   requires [version] nonnil(v)
 //@   requires [caps-nonnil] forall i int :: 0 <= i && i < len(target.Capabilities) ==> target.Capabilities[i] != nil
+//@   requires [caps-distinct] forall i int, j int :: 0 <= i && i < j && j < len(target.Capabilities) ==> target.Capabilities[i] != target.Capabilities[j]
+//@   ensures [has-iff-in-some-range] err == nil ==> (forall i int :: 0 <= i && i < len(target.Capabilities) && len(target.Capabilities[i].VersionRanges) > 0 ==> v.$has[ref(target.Capabilities[i])] == inany(target.Capabilities[i], len(target.Capabilities[i].VersionRanges), v.$vs))
+//@   ensures [no-range-never-set] forall k int :: (forall i int :: 0 <= i && i < len(target.Capabilities) ==> ref(target.Capabilities[i]) != k || len(target.Capabilities[i].VersionRanges) == 0) ==> v.$has[k] == old(v.$has[k])
+//@   loop 0:
+//@     invariant [idx] 0 - 1 <= rangeindex && rangeindex < len(target.Capabilities) && v.$vs == old(v.$vs)
+//@     invariant [done] forall i int :: 0 <= i && i <= rangeindex && len(target.Capabilities[i].VersionRanges) > 0 ==> v.$has[ref(target.Capabilities[i])] == inany(target.Capabilities[i], len(target.Capabilities[i].VersionRanges), v.$vs) by@keep head(capdone(target, v, i))
+//@     invariant [untouched] forall k int :: (forall i int :: 0 <= i && i <= rangeindex ==> ref(target.Capabilities[i]) != k || len(target.Capabilities[i].VersionRanges) == 0) ==> v.$has[k] == old(v.$has[k])
+//@   loop 1:
+//@     invariant [idx] 0 - 1 <= rangeindex && rangeindex < len(cap.VersionRanges) && v.$vs == old(v.$vs) && cap != nil
+//@     invariant [none-so-far] forall r int :: 0 <= r && r <= rangeindex ==> !caprange(cap, r, v.$vs)
+//@     invariant [false-so-far] rangeindex >= 0 ==> !v.$has[ref(cap)]
+//@     invariant [others] forall k int :: k != ref(cap) ==> v.$has[k] == loopentry(v.$has[k])
+//@     invariant [first] rangeindex == 0 - 1 ==> v.$has[ref(cap)] == loopentry(v.$has[ref(cap)])
+//@     exitinv [found] contains && err == nil ==> v.$has[ref(cap)] && inany(cap, len(cap.VersionRanges), v.$vs) by contains && err == nil ==> caprange(cap, rangeindex + 1, v.$vs) && rangeindex + 1 < len(cap.VersionRanges)
+//@     exitinv [others] forall k int :: k != ref(cap) ==> v.$has[k] == loopentry(v.$has[k])
+//@     exitinv [vs] v.$vs == old(v.$vs) && cap != nil
+//@ pred capdone(t Target, v Version, i int) { 0 <= i && i < len(t.Capabilities) && len(t.Capabilities[i].VersionRanges) > 0 ==> v.$has[ref(t.Capabilities[i])] == inany(t.Capabilities[i], len(t.Capabilities[i].VersionRanges), v.$vs) }
 
 //@ # NewCapability pairs the version strings: range i is (s[2i], s[2i+1]); a trailing single
 //@ # lower bound makes an open-ended range
@@ -56,3 +86,8 @@ package capability
 //@ func (Target).Version returns (ver, err)
 //@   requires [caps-nonnil] forall i int :: 0 <= i && i < len(target.Capabilities) ==> target.Capabilities[i] != nil
 //@   ensures [version-or-error] err == nil ==> nonnil(ver)
+
+//@ # the default comparer fails exactly when one of the two strings does not parse
+//@ func VersionCompareSemantic returns (r, err)
+//@   modifies
+//@   ensures [error-iff-unparsable] (err != nil) == (ufb_unparsable(a) || ufb_unparsable(b))
